@@ -97,12 +97,13 @@ type ktRig struct {
 	p      reflect.Value            // *struct{Fint8 int8; ...}
 	slices map[string]reflect.Value // name -> []T of length 1
 	maps   map[string]reflect.Value // name -> map[string]T
+	arrays map[string]reflect.Value // name -> *[1]T
 }
 
 func fieldName(w string) string { return "F" + w }
 
 func newKTRig() *ktRig {
-	k := &ktRig{vm: otto.New(), slices: map[string]reflect.Value{}, maps: map[string]reflect.Value{}}
+	k := &ktRig{vm: otto.New(), slices: map[string]reflect.Value{}, maps: map[string]reflect.Value{}, arrays: map[string]reflect.Value{}}
 	ws := ktWidths()
 	var fields []reflect.StructField
 	for _, w := range ws {
@@ -142,6 +143,17 @@ func newKTRig() *ktRig {
 		stf := reflect.MakeFunc(reflect.FuncOf([]reflect.Type{st}, []reflect.Type{t}, false), func(a []reflect.Value) []reflect.Value {
 			return rec(a, func(v reflect.Value) reflect.Value { return v.Field(0) })
 		})
+		last := reflect.MakeFunc(reflect.FuncOf([]reflect.Type{reflect.SliceOf(t)}, []reflect.Type{t}, true), func(a []reflect.Value) []reflect.Value {
+			return rec(a, func(v reflect.Value) reflect.Value {
+				if v.Len() == 0 {
+					return reflect.Zero(t)
+				}
+				return v.Index(v.Len() - 1)
+			})
+		})
+		k.vm.Set("last_"+w.name, last.Interface())
+		k.arrays[w.name] = reflect.New(reflect.ArrayOf(1, t))
+		k.vm.Set("a_"+w.name, k.arrays[w.name].Interface())
 		k.vm.Set("echo_"+w.name, echo.Interface())
 		k.vm.Set("first_"+w.name, first.Interface())
 		k.vm.Set("mapk_"+w.name, mapk.Interface())
@@ -177,6 +189,14 @@ func (k *ktRig) run(sink string, w ktWidth, src string) string {
 		k.slices[w.name].Index(0).Set(reflect.Zero(w.t))
 		script = "s_" + w.name + "[0] = " + src
 		stored = func() reflect.Value { return k.slices[w.name].Index(0) }
+	case "variadic":
+		script = "last_" + w.name + "(" + src + ")"
+	case "variadic-tail":
+		script = "last_" + w.name + "(0, " + src + ")"
+	case "array-elem":
+		k.arrays[w.name].Elem().Index(0).Set(reflect.Zero(w.t))
+		script = "a_" + w.name + "[0] = " + src
+		stored = func() reflect.Value { return k.arrays[w.name].Elem().Index(0) }
 	case "map-elem":
 		k.maps[w.name].SetMapIndex(reflect.ValueOf("k"), reflect.Value{})
 		script = "m_" + w.name + ".k = " + src
